@@ -16,7 +16,7 @@ Definition model_ok (c : case) : bool :=
 Definition ref_full_ok (c : case) : bool :=
   let '(p, n, tb, tf, rt) := c in
   (rt <=? n)
-  && (if fixed8_precision <=? p then rt =? n else true)
+  && (if 8 <=? p then rt =? n else true)   (* Fixed8 = 8 decimals by definition, independent of Gen *)
   && (if (0 <=? n) && (n <? two53)
       then (tb =? to_balance_exact p n) && (0 <=? tb) && (tf =? to_fixed8_exact p n) && (0 <=? tf)
       else true).
